@@ -58,6 +58,7 @@ TOL = "1e-6"
 FLOOR = "1e-18"
 RUN_TIMEOUT = 45
 KEY_CD = "cd_music-species-without-charge-distribution"
+KEY_NEG = "negative-total-recovery-with-kinetics"
 
 
 def hx(s):
@@ -356,6 +357,16 @@ def judge_history(ctx, h, res, pm):
                 n_d += 1
             elif w[0] == "?":
                 raise RuntimeError("pmodel inventory: " + ln)
+        impossible = [k for k in inv_before if k != "Charge" and
+                      any(inv_before[k] + a.get(k, 0) < -Fraction(1, 10**15) for a in (added_k or [added]))]
+        if impossible:
+            # the reaction removes more of an element than the cell holds: the property's equation cannot be met; the
+            # only conforming outcome is an error. Known finding when KINETICS lets the call finish without one.
+            out["impossible"] = out.get("impossible", 0) + 1
+            out.setdefault("findings", []).append(
+                (KEY_NEG, "simulation %d: reaction removes absent %s; run returned no error; imbalances %s"
+                 % (s, impossible, json.dumps(bad[:3])), s))
+            break
         out["judged"] += 1
         out["steps"] += nsteps
         if cd_music_inconsistent(before, plan["use"].get("surface")) or cd_music_inconsistent(after, plan["save"].get("surface")):
@@ -396,12 +407,19 @@ def sys_check(h, heads, rws, before, plan, inv_before, added_k, phases, extra, g
         for o in (e["opts"] if e else []):
             if o["key"] == "component":
                 kin_parts[o["args"][0]] = [(formula_of(r[0], phases, extra), Fraction(r[1])) for r in rows(o["opts"], "namecoef")]
+    if "equilibrium_phases" in plan["use"]:
+        # SYS() also leaves out phases with an alternative formula: their reservoir is EQUI(phase) * alternative formula
+        e = before.get(("EQUILIBRIUM_PHASES_RAW", plan["use"]["equilibrium_phases"]))
+        for o in (e["opts"] if e else []):
+            alt = val(o["opts"], "add_formula", "") if o["key"] == "component" else ""
+            if alt:
+                kin_parts["\0" + o["args"][0]] = [(formula_of(alt, phases, extra), Fraction(1))]
     for k, row in enumerate(rws):
         add = added_k[k] if k < len(added_k) else {}
         kin_inv = {}
         ok = True
         for name, parts in kin_parts.items():
-            c = col.get("KIN_" + name)
+            c = col.get("EQUI_" + name[1:]) if name.startswith("\0") else col.get("KIN_" + name)
             if c is None or row[c] is None:
                 ok = False
                 break
@@ -782,6 +800,7 @@ def run(ctx):
         stats["worst_rel"] = max(stats["worst_rel"], j["worst"])
         stats["timeouts"] = stats.get("timeouts", 0) + j.get("timeouts", 0)
         stats["plan_mismatch"] = stats.get("plan_mismatch", 0) + j.get("missing", 0)
+        stats["impossible_reactions"] = stats.get("impossible_reactions", 0) + j.get("impossible", 0)
         for key, what, sim in j.get("findings", []):
             stats["known_finding_simulations"] = stats.get("known_finding_simulations", 0) + 1
             if key not in seen_findings:
